@@ -462,52 +462,54 @@ theorem maybeAccept_safe {U D : List BlockAbs} {P : List BlockAbs} {s : State} {
   · exact ⟨reject, rfl, fun h hh => hh, by simp⟩
   · split
     · exact ⟨reject, rfl, fun h hh => hh, by simp⟩
-    · rename_i hhc
-      have hhc' : (k.hdrOk && k.ctxOk) = true := by simpa using hhc
-      have hpre : k.preOk = true := by
-        unfold BlockAbs.preOk; simp only [Bool.and_eq_true] at hhc' ⊢; exact ⟨⟨hksane, hhc'.1⟩, hhc'.2⟩
-      cases hlk : lookup s.idx k.hash with
-      | some n =>
-        simp only []
-        obtain ⟨hnU, _⟩ := idxOK_node hs.idx hlk hk0
-        have hnk : n.blk = k := wf_eq hwf hnU hkU (lookup_hash hlk)
-        subst hnk
-        obtain ⟨a, b, c, d⟩ := store_safe (s1 := s.markData n.blk.hash) hs hkp hpre hlk (fun h _ => rfl) hs.idx
-          (by intro h hh; unfold State.markData; rw [status_setSt]; simp [Ne.symm hh])
-          (by unfold State.markData; rw [status_setSt]; simp)
-          (vOk_markData hs.vOk _) rfl rfl
-        exact ⟨a, b, c, fun _ => d⟩
-      | none =>
-        simp only []
-        generalize hn : (⟨k, p.height + 1, p.workSum + k.work⟩ : Node) = n
-        have hnk : n.blk = k := by rw [← hn]
-        subst hnk
-        have hst1 : ∀ h, ({ s with idx := n :: s.idx, st := (n.blk.hash, ({ data := true, header := true } : Status)) :: s.st } : State).status h
-            = if n.blk.hash = h then ({ data := true, header := true } : Status) else s.status h := by
-          intro h; unfold State.status; simp only [stOf_cons]
-        obtain ⟨a, b, c, d⟩ := store_safe
-          (s1 := { s with idx := n :: s.idx, st := (n.blk.hash, ({ data := true, header := true } : Status)) :: s.st })
-          hs hkp hpre
-          (by show lookup (n :: s.idx) n.blk.hash = some n; rw [lookup_cons]; simp)
-          (by intro h hh; show lookup (n :: s.idx) h = lookup s.idx h; rw [lookup_cons]; simp [Ne.symm hh])
-          (by show IdxOK U (n :: s.idx)
-              refine IdxOK.cons hs.idx hk0 hlk hkU hlp ?_ ?_
-              · rw [← hn]
-              · rw [← hn])
-          (by intro h hh; rw [hst1]; simp [Ne.symm hh])
-          (by rw [hst1]; simp)
-          (by
-            intro h m hv hm
-            rw [hst1] at hv
-            by_cases e : n.blk.hash = h
-            · simp [e] at hv
-            · simp only [e, if_false] at hv
-              have hm' : lookup (n :: s.idx) h = some m := hm
-              rw [lookup_cons] at hm'
-              simp only [e, if_false] at hm'
-              exact hs.vOk h m hv hm')
-          rfl rfl
-        exact ⟨a, b, c, fun _ => d⟩
+    · split
+      · exact ⟨reject, rfl, fun h hh => hh, by simp⟩
+      · rename_i hhc
+        have hhc' : (k.hdrOk && k.ctxOk) = true := by simpa using hhc
+        have hpre : k.preOk = true := by
+          unfold BlockAbs.preOk; simp only [Bool.and_eq_true] at hhc' ⊢; exact ⟨⟨hksane, hhc'.1⟩, hhc'.2⟩
+        cases hlk : lookup s.idx k.hash with
+        | some n =>
+          simp only []
+          obtain ⟨hnU, _⟩ := idxOK_node hs.idx hlk hk0
+          have hnk : n.blk = k := wf_eq hwf hnU hkU (lookup_hash hlk)
+          subst hnk
+          obtain ⟨a, b, c, d⟩ := store_safe (s1 := s.markData n.blk.hash) hs hkp hpre hlk (fun h _ => rfl) hs.idx
+            (by intro h hh; unfold State.markData; rw [status_setSt]; simp [Ne.symm hh])
+            (by unfold State.markData; rw [status_setSt]; simp)
+            (vOk_markData hs.vOk _) rfl rfl
+          exact ⟨a, b, c, fun _ => d⟩
+        | none =>
+          simp only []
+          generalize hn : (⟨k, p.height + 1, p.workSum + k.work⟩ : Node) = n
+          have hnk : n.blk = k := by rw [← hn]
+          subst hnk
+          have hst1 : ∀ h, ({ s with idx := n :: s.idx, st := (n.blk.hash, ({ data := true, header := true } : Status)) :: s.st } : State).status h
+              = if n.blk.hash = h then ({ data := true, header := true } : Status) else s.status h := by
+            intro h; unfold State.status; simp only [stOf_cons]
+          obtain ⟨a, b, c, d⟩ := store_safe
+            (s1 := { s with idx := n :: s.idx, st := (n.blk.hash, ({ data := true, header := true } : Status)) :: s.st })
+            hs hkp hpre
+            (by show lookup (n :: s.idx) n.blk.hash = some n; rw [lookup_cons]; simp)
+            (by intro h hh; show lookup (n :: s.idx) h = lookup s.idx h; rw [lookup_cons]; simp [Ne.symm hh])
+            (by show IdxOK U (n :: s.idx)
+                refine IdxOK.cons hs.idx hk0 hlk hkU hlp ?_ ?_
+                · rw [← hn]
+                · rw [← hn])
+            (by intro h hh; rw [hst1]; simp [Ne.symm hh])
+            (by rw [hst1]; simp)
+            (by
+              intro h m hv hm
+              rw [hst1] at hv
+              by_cases e : n.blk.hash = h
+              · simp [e] at hv
+              · simp only [e, if_false] at hv
+                have hm' : lookup (n :: s.idx) h = some m := hm
+                rw [lookup_cons] at hm'
+                simp only [e, if_false] at hm'
+                exact hs.vOk h m hv hm')
+            rfl rfl
+          exact ⟨a, b, c, fun _ => d⟩
 
 /-! ### processOrphans, addOrphanBlock, ProcessBlock, ProcessBlockHeader -/
 
